@@ -270,6 +270,9 @@ def handleDoubleSign (s : State) (a : Addr) (infractionHeight evTime pw : Int) :
     | none => none
     | some si =>
       if si.tomb then none
+      -- the conviction deletes the power-index key of the current stake (in `slash`, at the latest in
+      -- `ForceValidatorUnstake`): `Int64()` panics for a power ≥ 2^63
+      else if !isInt64 (power v.tokens) then none
       else
         let s1 := slash s a (infractionHeight - 1) pw s.p.sfDouble
         let s2? := if !v.jailed then jail s1 a else some s1
@@ -507,6 +510,8 @@ def handle (s : State) : Msg → Option State
     | some v =>
       if v.status != 2 then none
       else if v.tokens < s.p.minStake then none      -- panic
+      -- `deleteValidatorFromStakingSet` computes the power-index key: `Int64()` panics for a power ≥ 2^63
+      else if !isInt64 (power v.tokens) then none
       else
         let s1 := delStaked s a v
         let v1 := { v with status := 1, unstake := s.time + s.p.unstakingTime }
